@@ -147,6 +147,7 @@ func (tx *Tx) Commit() error {
 		off             int64
 		e               *Entry
 		bucketMetaTemps = make(map[string]BucketMeta) // key range written by this tx, per bucket
+		idxJobs         []idxJob
 	)
 
 	if tx.db == nil {
@@ -246,8 +247,19 @@ func (tx *Tx) Commit() error {
 		}
 
 		if entry.Meta.ds == DataStructureBPTree {
-			tx.buildBPTreeIdx(bucket, entry, e, off, countFlag)
+			if tx.db.opt.EntryIdxMode == HintBPTSparseIdxMode {
+				// the active tree must hold the entry before a rotation persists it
+				tx.buildBPTreeIdx(bucket, entry, e, off, tx.db.ActiveFile.fileID, countFlag)
+			} else {
+				// RAM index modes: index only after every record has been written, so that a
+				// failing write leaves no trace of the transaction in the index
+				idxJobs = append(idxJobs, idxJob{bucket: bucket, entry: entry, e: e, off: off, fileID: tx.db.ActiveFile.fileID})
+			}
 		}
+	}
+
+	for _, j := range idxJobs {
+		tx.buildBPTreeIdx(j.bucket, j.entry, j.e, j.off, j.fileID, countFlag)
 	}
 
 	tx.buildIdxes(writesLen)
@@ -397,12 +409,20 @@ func (tx *Tx) buildIdxes(writesLen int) {
 	}
 }
 
-func (tx *Tx) buildBPTreeIdx(bucket string, entry, e *Entry, off int64, countFlag bool) {
+// idxJob is a key/value index update deferred until all records of the transaction are written.
+type idxJob struct {
+	bucket   string
+	entry, e *Entry
+	off      int64
+	fileID   int64
+}
+
+func (tx *Tx) buildBPTreeIdx(bucket string, entry, e *Entry, off int64, fileID int64, countFlag bool) {
 	if tx.db.opt.EntryIdxMode == HintBPTSparseIdxMode {
 		newKey := []byte(bucket)
 		newKey = append(newKey, entry.Key...)
 		tx.db.ActiveBPTreeIdx.Insert(newKey, e, &Hint{
-			fileID:  tx.db.ActiveFile.fileID,
+			fileID:  fileID,
 			key:     newKey,
 			meta:    entry.Meta,
 			dataPos: uint64(off),
@@ -416,7 +436,7 @@ func (tx *Tx) buildBPTreeIdx(bucket string, entry, e *Entry, off int64, countFla
 			tx.db.BPTreeIdx[bucket] = NewTree()
 		}
 		_ = tx.db.BPTreeIdx[bucket].Insert(entry.Key, e, &Hint{
-			fileID:  tx.db.ActiveFile.fileID,
+			fileID:  fileID,
 			key:     entry.Key,
 			meta:    entry.Meta,
 			dataPos: uint64(off),
